@@ -86,7 +86,7 @@ class LTS:
             if e["op"] == "return":
                 continue
             a, b = self.S(t["f"]), self.S(t["t"])
-            lab = {"op": e["op"], "ws": sorted(e["ws"]), "wc": [t["t"]["reg"][w] for w in sorted(e["ws"])], "cs": sorted(e["cs"])}
+            lab = {"op": e["op"], "ws": sorted(e["ws"]), "wc": [t["t"]["reg"][w] for w in sorted(e["ws"])], "cs": sorted(e["cs"]), "dl": e["dl"]}
             k = json.dumps(lab, sort_keys=True)
             if e["op"] == "race":
                 self.race[a].setdefault(k, (lab, set()))[1].add(b)
@@ -166,7 +166,7 @@ def orderings(lts, init, max_req, max_reg):
         for k in sorted(lts.det[a]):
             lab, b = lts.det[a][k]
             if lab["op"] == "request":
-                if len(lab["cs"]) != 1 or nreq >= max_req:
+                if len(lab["cs"]) != 1 or lab["dl"] != "single" or nreq >= max_req:
                     continue
                 ext = True
                 rec(b, steps + [(a, "det", k)], nreq + 1, nreg)
@@ -208,7 +208,9 @@ def concretise(lts, wid, steps, rnd, abstract_codes, expect=True):
     out, exp = [], []
     for (a, kind, k) in steps:
         lab, succ = (lts.det[a][k] if kind == "det" else lts.race[a][k])
-        out.append({"op": lab["op"], "ws": lab["ws"], "wc": [m[c] for c in lab["wc"]], "cs": sorted(m[c] for c in lab["cs"])})
+        cs = [m[c] for c in lab["cs"]]
+        rnd.shuffle(cs)      # sending order of a stream: the model's cs is a set
+        out.append({"op": lab["op"], "ws": lab["ws"], "wc": [m[c] for c in lab["wc"]], "cs": cs, "dl": lab["dl"]})
         if kind == "det":
             st = lts.states[succ]
             exp.append([{"park": sorted([w, m[c]] for (w, c) in st[1]), "regd": sorted(st[2])}])
@@ -228,7 +230,14 @@ def code_walks(via):
             {"op": "reg", "ws": ["w2"], "wc": [c], "cs": []},
             {"op": "request", "ws": [], "wc": [], "cs": [(c + 1) % 256]},
             {"op": "request", "ws": [], "wc": [], "cs": [c]},
-            {"op": "race", "ws": ["w3"], "wc": [c], "cs": [c]}]})
+            {"op": "race", "ws": ["w3"], "wc": [c], "cs": [c]},
+            # the code as the 2nd / 3rd request of a stream on one connection
+            {"op": "reg", "ws": ["w4", "w5"], "wc": [c, c], "cs": []},
+            {"op": "request", "ws": [], "wc": [], "cs": [(c + 2) % 256, (c + 3) % 256], "dl": "pipelined"},
+            {"op": "request", "ws": [], "wc": [], "cs": [(c + 2) % 256, c], "dl": "pipelined"},
+            {"op": "reg", "ws": ["w6", "w7"], "wc": [c, (c + 1) % 256], "cs": []},
+            {"op": "request", "ws": [], "wc": [], "cs": [(c + 3) % 256, (c + 2) % 256, c], "dl": "fragmented" if c % 2 else "pipelined"},
+            {"op": "request", "ws": [], "wc": [], "cs": [(c + 1) % 256], "dl": "fragmented"}]})
     if via:
         # request classes of the dispatcher with waiters parked on the code: add-hardware-certificate in every frame variant
         # (two well-formed formats, two malformed ones that end the connection with an error), slot requests, the wait
@@ -241,7 +250,11 @@ def code_walks(via):
                 {"op": "request", "ws": [], "wc": [], "cs": [c]},
                 {"op": "reg", "ws": ["w4", "w5", "w6"], "wc": [c, d, c], "cs": []},
                 {"op": "request", "ws": [], "wc": [], "cs": [c, 40]},
-                {"op": "request", "ws": [], "wc": [], "cs": [d]}]})
+                {"op": "request", "ws": [], "wc": [], "cs": [d]},
+                {"op": "reg", "ws": ["w7", "w8", "w9"], "wc": [c, d, c], "cs": []},
+                {"op": "request", "ws": [], "wc": [], "cs": [11 if c != 11 else 13, c], "dl": "pipelined"},
+                {"op": "reg", "ws": ["w10", "w11"], "wc": [c, c], "cs": []},
+                {"op": "request", "ws": [], "wc": [], "cs": [1, 19, c, d], "dl": "fragmented"}]})
     return ws
 
 
@@ -267,14 +280,16 @@ def random_walks(via, n, rnd, maxlen):
                 nw += b
                 steps.append({"op": "reg", "ws": ids, "wc": [pick() for _ in ids], "cs": []})
             elif r < 0.85 or nw >= 16:
-                cs = sorted({pick() for _ in range(rnd.choice([1, 1, 2, 3]))})
-                steps.append({"op": "request", "ws": [], "wc": [], "cs": cs})
+                cs = sorted({pick() for _ in range(rnd.choice([1, 1, 2, 3, 4]))})
+                rnd.shuffle(cs)
+                steps.append({"op": "request", "ws": [], "wc": [], "cs": cs, "dl": rnd.choice(["single", "single", "pipelined", "fragmented"])})
             else:
                 b = min(rnd.choice([1, 1, 2]), 16 - nw)
                 ids = ["w%d" % (nw + j + 1) for j in range(b)]
                 nw += b
                 cs = sorted({pick() for _ in range(rnd.choice([1, 2]))})
-                steps.append({"op": "race", "ws": ids, "wc": [rnd.choice(cs) if rnd.random() < 0.7 else pick() for _ in ids], "cs": cs})
+                steps.append({"op": "race", "ws": ids, "wc": [rnd.choice(cs) if rnd.random() < 0.7 else pick() for _ in ids], "cs": cs,
+                              "dl": rnd.choice(["single", "single", "pipelined", "fragmented"])})
         ws.append({"id": "r%d" % i, "steps": steps})
     return ws
 
@@ -350,7 +365,7 @@ def shape(rec):
     cl = lambda c: "w" if c == WAITCODE else ("i" if c < TABLE else "o")
     e = rec["e"]
     rel = lambda c: ("hit%d" % min(cnt[c], 3)) if cnt.get(c) else cl(c)
-    return (rec["post"]["via"], e["op"], tuple(sorted(min(v, 3) for v in cnt.values())), tuple(sorted(rel(c) for c in e["wc"])),
+    return (rec["post"]["via"], e["op"], e.get("dl"), tuple(sorted(min(v, 3) for v in cnt.values())), tuple(sorted(rel(c) for c in e["wc"])),
             tuple(sorted(rel(c) for c in e["cs"])), len(e["rel"]) > 0)
 
 
